@@ -1,3 +1,112 @@
-import QcoVerif.Model.Builder
+import QcoVerif.Properties.C18
+import QcoVerif.Properties.C05
+import QcoVerif.Lemmas.Listing
+import QcoVerif.Lemmas.C10Timing
+/-
+  C03 — answers depend on the circuit, not on what was asked before.
+
+  In the model every observer is a function of the heap (the timing evaluator has no memo that outlives a
+  query), so the only way an observation can influence a later answer is through what it WRITES.  Proved:
+   * a listing writes nothing but relation links and allocates nothing (`listing_writes_links_only`), listing
+     again returns the same sequence (`listing_answer_idempotent`), and on a heap on which a listing has nothing
+     left to assign ("settled") it writes nothing at all (`listing_fixed_point`);
+   * plotting is exactly one listing on the heap, for any ambient and drawing durations (`plot_is_one_listing`);
+   * a copy writes to no existing object or link (`copy_observer_frame`, leaf case);
+   * time queries do not write (they are pure functions `World → Option Int`).
+  NOT proved, and FALSE of model and code: "a listing before copying/nesting does not change the copy" — the links a
+  listing assigns make distinct objects value-equal keys of the copy lookup (known finding R3; the histories are in
+  corpus/C03 and known_findings.json).  The full frame statement (every observer commutes with every later mutation
+  that performs no value-keyed lookup) is not proved either; the check replays every generated history on the
+  implementation with and without its intermediate observations.
+-/
 namespace Qco.C03
+
+open Qco
+
+/-- a listing writes nothing but relation links: objects keep kind, qubits, channel, duration strategy, tag, fields,
+    count and graph; no object and no link is allocated; durations and registries are not touched. -/
+theorem listing_writes_links_only (w : World) (c : Nat) :
+    Shape (w.operations c).1 w ∧ (w.operations c).1.ops.size = w.ops.size ∧ (w.operations c).1.links = w.links :=
+  ⟨operations_shape w c, operations_ops_size w c, operations_links w c⟩
+
+/-- listing twice: the second listing answers the same sequence. -/
+theorem listing_answer_idempotent (w : World) (c : Nat) :
+    ((w.operations c).1.operations c).2 = (w.operations c).2 := operations_twice w c
+
+/-- on a settled heap (every relation-less node already carries its block's link) a listing is the identity on
+    the heap. -/
+theorem listing_fixed_point (w : World) (c : Nat) (hs : Draw.settled w w.depthFuel c = true) :
+    (w.operations c).1 = w := by
+  rw [Qco.C18.settled_listing w c hs]
+
+/-- plotting, with any channel order that is accepted, any label map, compact or not, under any ambient durations,
+    leaves exactly the heap one listing leaves. -/
+theorem plot_is_one_listing (w : World) (c : Nat) (a : Draw.Args) (rows : List Int)
+    (h : Draw.reorder (Draw.occupied w c) a.order = some rows) : (Draw.plot w c a).1 = (w.operations c).1 :=
+  (Qco.C18.plot_world w c a rows h).1
+
+/-- a rejected plot (a channel in the requested order that the circuit does not occupy) leaves the heap untouched. -/
+theorem plot_rejected_is_identity (w : World) (c : Nat) (a : Draw.Args) (x : Int) (hx : x ∈ a.order)
+    (hn : x ∉ Draw.occupied w c) : (Draw.plot w c a).1 = w := by
+  rw [Qco.C18.plot_reject w c a x hx hn]
+
+/-- copying an operation (as observer) writes to no existing object or link. -/
+theorem copy_observer_frame (w : World) (o : Nat) (lk : Lookup) :
+    (∀ i, i < w.ops.size → (w.copyLeaf o lk).1.op i = w.op i) ∧
+    (∀ i, i < w.links.size → (w.copyLeaf o lk).1.lnk i = w.lnk i) :=
+  ⟨(Qco.C05.copyLeaf_frame w o lk).2.1, (Qco.C05.copyLeaf_frame w o lk).2.2⟩
+
+/-- reported times are a function of the heap alone: heaps that agree on objects, links and duration settings get
+    the same answers (there is no hidden state such as a process-wide memo — R1 in the pinned code). -/
+theorem times_depend_on_heap_only (w w' : World) (ho : w.ops = w'.ops) (hl : w.links = w'.links)
+    (h1 : w.gRo = w'.gRo) (h2 : w.gMw = w'.gMw) (h3 : w.gFl = w'.gFl) (h4 : w.gRs = w'.gRs)
+    (h5 : w.dreg = w'.dreg) (f o : Nat) :
+    evStart w f o = evStart w' f o ∧ evEnd w f o = evEnd w' f o ∧ evDur w f o = evDur w' f o := by
+  have key : ∀ f, (∀ o, evLeadSpan w f o = evLeadSpan w' f o) ∧ (∀ o, evInterval w f o = evInterval w' f o) ∧
+      (∀ o, evDur w f o = evDur w' f o) ∧ (∀ o, evStart w f o = evStart w' f o) ∧
+      (∀ o, evEnd w f o = evEnd w' f o) ∧ (∀ l, evRef w f l = evRef w' f l) := by
+    have hop : ∀ i, w.op i = w'.op i := by intro i; simp [World.op, ho]
+    have hlk : ∀ i, w.lnk i = w'.lnk i := by intro i; simp [World.lnk, hl]
+    have hld : ∀ d, w.leafDur d = w'.leafDur d := by
+      intro d
+      cases d with
+      | fixed x => rfl
+      | glob k => cases k <;> simp [World.leafDur, World.gdur, h1, h2, h3, h4]
+      | reg key => simp [World.leafDur, h5]
+      | decoupling => simp [World.leafDur, h1, h2]
+    intro f
+    induction f with
+    | zero =>
+      refine ⟨?_, ?_, ?_, ?_, ?_, ?_⟩ <;> intro o
+      · rw [evLeadSpan.eq_1, evLeadSpan.eq_1]
+      · rw [evInterval.eq_1, evInterval.eq_1]
+      · rw [evDur.eq_1, evDur.eq_1]
+      · rw [evStart.eq_1, evStart.eq_1]
+      · rw [evEnd.eq_1, evEnd.eq_1]
+      · rw [evRef.eq_1, evRef.eq_1]
+    | succ f ih =>
+      obtain ⟨i1, i2, i3, i4, i5, i6⟩ := ih
+      have e4 : (fun n => evStart w f n) = (fun n => evStart w' f n) := funext i4
+      have e2 : (fun n => evInterval w f n) = (fun n => evInterval w' f n) := funext i2
+      have e5 : (fun r => (evEnd w f r).map (fun e => (r, e))) = (fun r => (evEnd w' f r).map (fun e => (r, e))) :=
+        funext (fun r => by rw [i5 r])
+      refine ⟨?_, ?_, ?_, ?_, ?_, ?_⟩ <;> intro o
+      · rw [evLeadSpan.eq_2, evLeadSpan.eq_2, hop o, e4, e2, hld]
+      · rw [evInterval.eq_2, evInterval.eq_2, i4 o, i1 o]
+      · rw [evDur.eq_2, evDur.eq_2, i1 o]
+      · rw [Qco.C10.evStart_succ, Qco.C10.evStart_succ, i3 o, hop o, i6, hlk]
+        congr 1; funext d; congr 1; funext r
+        cases r with
+        | none => rfl
+        | some r => simp only [i4 r, i5 r]
+      · rw [evEnd.eq_2, evEnd.eq_2, i4 o, i3 o]
+      · rw [evRef.eq_2, evRef.eq_2, hlk o, e5]
+        split
+        · rfl
+        · split
+          · rfl
+          · rename_i r0 _ _
+            simp only [i5 r0]
+  exact ⟨(key f).2.2.2.1 o, (key f).2.2.2.2.1 o, (key f).2.2.1 o⟩
+
 end Qco.C03
